@@ -1,6 +1,7 @@
 package main
 
 import (
+	"os"
 	"fmt"
 	"go/token"
 	"go/types"
@@ -155,6 +156,7 @@ func (cf *chanFlow) content(n any) any {
 func buildChanFlow(p *Program) *chanFlow {
 	cf := &chanFlow{p: p, parent: map[any]any{}, ops: map[any][]chanOp{}, pointee: map[any]any{}}
 	cg := p.CallGraph()
+	bound := map[ssa.CallInstruction]bool{}
 	for round := 0; round < 1; round++ {
 		for _, fn := range p.Funcs {
 			for _, b := range fn.Blocks {
@@ -165,10 +167,28 @@ func buildChanFlow(p *Program) *chanFlow {
 			// dynamic / interface calls through the call graph
 			if n := cg.Nodes[fn]; n != nil {
 				for _, e := range n.Out {
+					if os.Getenv("HIDI_DEBUG") == "cg" && e.Site != nil && e.Site.Common().IsInvoke() {
+						fmt.Fprintln(os.Stderr, "cg", fn, "->", e.Callee.Func, e.Callee.Func.Synthetic, len(e.Callee.Func.Blocks), p.OwnedFunc(e.Callee.Func))
+					}
 					if e.Site == nil || e.Callee.Func.Blocks == nil || !p.OwnedFunc(e.Callee.Func) {
 						continue
 					}
-					cf.bindCall(e.Site, e.Callee.Func)
+					// a call through an interface reaches the method through a synthetic wrapper (generic instantiation,
+					// pointer-receiver wrapper): bind to the method it forwards to
+					cf.bindCall(e.Site, unwrapSynthetic(e.Callee.Func, 0))
+					bound[e.Site] = true
+				}
+			}
+			// interface calls for which the type-propagation graph has no repository callee (a generic type behind a narrow
+			// interface): the class-hierarchy callees
+			if p.chaCg != nil {
+				if n := p.chaCg.Nodes[fn]; n != nil {
+					for _, e := range n.Out {
+						if e.Site == nil || bound[e.Site] || !e.Site.Common().IsInvoke() || e.Callee.Func.Blocks == nil || !p.OwnedFunc(e.Callee.Func) {
+							continue
+						}
+						cf.bindCall(e.Site, unwrapSynthetic(e.Callee.Func, 0))
+					}
 				}
 			}
 		}
@@ -401,4 +421,28 @@ func (c *chanClass) describe(p *Program) string {
 		mk = p.Pos(c.Makes[0].Instr.Pos())
 	}
 	return fmt.Sprintf("made@%s senders=%v receivers=%v closers=%v", mk, fns(c.Sends), fns(c.Recvs), fns(c.Close))
+}
+
+// unwrapSynthetic: the repository function a compiler-made wrapper forwards to (the wrapper itself if there is none).
+func unwrapSynthetic(f *ssa.Function, depth int) *ssa.Function {
+	if f == nil || f.Synthetic == "" || depth > 3 {
+		return f
+	}
+	var target *ssa.Function
+	for _, b := range f.Blocks {
+		for _, in := range b.Instrs {
+			if call, ok := in.(*ssa.Call); ok {
+				if callee := call.Call.StaticCallee(); callee != nil && len(callee.Blocks) > 0 {
+					if target != nil && target != callee {
+						return f
+					}
+					target = callee
+				}
+			}
+		}
+	}
+	if target == nil {
+		return f
+	}
+	return unwrapSynthetic(target, depth+1)
 }
